@@ -85,8 +85,8 @@ func genC10(e *emitter, tier string, seed int64) {
 			emitC10(e, []string{a, b}, "seq2")
 		}
 	}
-	n3 := 6000
-	nr := 1500
+	n3 := 3000
+	nr := 800
 	if tier == "thorough" {
 		n3, nr = 400000, 60000
 	}
